@@ -37,6 +37,9 @@ let clamp_int s =
   let digits = if neg then String.length s - 1 else String.length s in
   if digits >= 18 then (if neg then - (1 lsl 60) else 1 lsl 60) else int_of_string s
 
+(* "_" stands for a blank in inputs reported by the extra steps *)
+let words s = words (String.map (fun c -> if c = '_' then ' ' else c) s)
+
 let eval inp =
   match words inp with
   | ["S"; i; ls] ->
